@@ -12,7 +12,7 @@ Import ListNotations.
 (* 0. src/File.c still has the shape the model encodes (facts re-extracted from the source text) *)
 Theorem file_c_has_the_modelled_shape :
   file_close_tests_closed = true /\ file_close_clears_always = true /\
-  file_ops_guarded = true /\ file_del_open_shape = true.
+  file_ops_guarded = true /\ file_del_open_shape = true /\ file_format_direct = true.
 Proof. exact FileTie.file_c_shape. Qed.
 Print Assumptions file_c_has_the_modelled_shape.
 
@@ -223,6 +223,33 @@ Example print_scan_roundtrip_reopen_nonvacuous :
      OkScan nat [45; 55] [119; 111]; OkScan nat [49; 50] [104; 101; 108; 108; 111];
      OkBool nat true; ORaise nat FFormatError].
 Proof. exact (conj FileExamples.x_ws_not_digit (conj FileExamples.x_digit_not_sign (conj FileExamples.x_sign_not_ws FileExamples.text_example))). Qed.
+
+(* 6c. the Format sink of File has NO length bound: whatever pieces of formatted text print_to / format_to
+       hand to File_Format_To (any number, any lengths - also longer than any buffer), the file holds
+       exactly their concatenation: after sclose + sopen, sread in ANY chunking returns it, stell = its length *)
+Theorem print_read_roundtrip_any_length :
+  forall (B : Type) (zero : B) (is_ws is_digit is_sign : B -> bool) (creatable close_fails : nat -> bool)
+         (fs : fsys B) (objs : nat -> fobj) (pre : list (op B)) (i p : nat) (mw mr : mode)
+         (ts : list (list B)) (ns : list nat),
+  (forall j h, objs j <> FObj (Some h)) ->
+  let w := fst (run B zero is_ws is_digit is_sign creatable close_fails file_close_tests_closed file_close_clears_always (w_init B fs objs) pre) in
+  w_objs B w i = FObj None -> creatable p = true -> close_fails p = false ->
+  trunc_mode mw -> from_start_mode mr -> list_sum ns = length (concat ts) ->
+  snd (run B zero is_ws is_digit is_sign creatable close_fails file_close_tests_closed file_close_clears_always w
+         (print_history B i p mw mr ts ns)) = print_outcome B ts ns /\
+  concat (pieces B ns (concat ts)) = concat ts.
+Proof. exact FileText.print_read_roundtrip. Qed.
+Print Assumptions print_read_roundtrip_any_length.
+
+Example print_read_roundtrip_any_length_nonvacuous :
+  let w := fst (xrun true true [ONew nat 0]) in
+  let ts := [repeat 7 300; []; [60; 62; 10]] in
+  w_objs nat w 0 = FObj None /\ list_sum [256; 0; 47] = length (concat ts) /\
+  snd (run nat 0 xws xdigit xsign xcreat xfull true true w (print_history nat 0 1 MW MR ts [256; 0; 47]))
+  = [OkUnit nat; OkUnit nat; OkUnit nat; OkUnit nat; OkNum nat 303; OkUnit nat; OkUnit nat;
+     OkRead nat 1 (repeat 7 256); OkRead nat 0 []; OkRead nat 1 (repeat 7 44 ++ [60; 62; 10]);
+     OkNum nat 303; OkBool nat false; OkRead nat 0 []; OkBool nat true].
+Proof. exact FileExamples.print_read_example. Qed.
 
 (* 7. the File_Close of the pinned tree is refuted on the same model (kept next to the positive
       theorems): without the closed test sclose twice calls fclose(NULL) (D19); keeping the handle
